@@ -56,6 +56,7 @@ type Ctx struct {
 	Known    []KnownFinding
 	knownHit []string
 	Extra    map[string]any
+	noImports bool // set on child contexts whose parent must not be re-entered
 }
 
 func NewCtx(prop, tier string, p *Prog) *Ctx {
